@@ -285,6 +285,25 @@ def r10(rr, repo):
     rr.ob('the output for a frame is chosen among outputs with at least one counted request', bool(picks), za.mod, za.S_maybe, witness=U(picks[0].ifs[0])[:100] if picks else 'no filter on the request count', key='bal-pick-counted')
 
 
+def close_drop_coverage(h):
+    """-> (covers ephemeral sources, covers synchronized sources, number of drops): which kinds of source get their half received set dropped by the CLOSE handler `h` of recv_once"""
+    drops = [c for c in q.calls_in(h) if U(c.func).endswith('.new_recv') and not c.args and not c.keywords]
+    eph = sync = False
+    for c in drops:
+        g = [(U(t), pol) for t, pol in q.guards_of(c, stop=h)]
+        terms = []
+        for t, pol in q.guards_of(c, stop=h):       # split conjunctions that hold
+            if pol and isinstance(t, ast.BoolOp) and isinstance(t.op, ast.And):
+                terms += [(U(v), True) for v in t.values]
+            else:
+                terms.append((U(t), pol))
+        only_eph = any(('eph' in t) and ((pol and not t.startswith('not ')) or (not pol and t.startswith('not '))) for t, pol in terms)
+        only_sync = any(('eph' in t) and ((pol and t.startswith('not ')) or (not pol and not t.startswith('not '))) for t, pol in terms)
+        eph = eph or not only_sync
+        sync = sync or not only_eph
+    return eph, sync, len(drops)
+
+
 @rule('C05.R11', "a listener leaves no trace in what the synchronized consumers get: its CLOSE does not withdraw the publisher's permission to send (only a synchronized client's CLOSE does), the id it asks for "
                  "does not enter the 'which balanced output is furthest behind' maximum, and when an ephemeral SOURCE closes, the half received set it leaves behind is dropped (it can never complete, and "
                  "must not be completed by the next publisher on that address)")
@@ -313,9 +332,8 @@ def r11(rr, repo):
     closes = [n for n in ast.walk(za.R_once) if isinstance(n, ast.If) and 'MSG_ID_CLOSE' in U(n.test)]
     rr.floor('CLOSE handlers in recv_once', len(closes), 1, za.mod, za.R_once)
     for h in closes:
-        drops = [c for c in q.calls_in(h) if U(c.func).endswith('.new_recv') and not c.args and not c.keywords]
-        okc = any(any(pol and 'sender_eph' in U(t) for t, pol in q.guards_of(c, stop=h)) or any(pol and 'ephemeral' in U(t) for t, pol in q.guards_of(c, stop=h)) for c in drops)
-        rr.ob("when an ephemeral source closes, a half received set of it is dropped", okc, za.mod, h, witness=f'new_recv() calls in the CLOSE handler: {len(drops)}', key='eph-close-drops-partial')
+        eph, sync, n = close_drop_coverage(h)
+        rr.ob("when an ephemeral source closes, a half received set of it is dropped", eph, za.mod, h, witness=f'new_recv() calls in the CLOSE handler: {n}', key='eph-close-drops-partial')
 
 
 @rule('C05.R12', "a stalled listener cannot keep the publisher from finishing: every PUB socket is closed with a finite linger (close(linger=N), a LINGER option set on it, or a context destroyed with a linger) - "
